@@ -36,7 +36,7 @@ Specification (all verdict-relevant knowledge is TLA+):
     limits +-2, page edges +-2, other pages, 0, 0FFFFH, 10000H.., 20000H + n).  Where two options of the same length reach the
     target TLC prints both and the emitted bytes must be one of them.
 (V) machine statements of t_mic51 (80515) and t_bas52 (8052) (stmt + emit events) validated by TLC against the table; a
-    rejection is SPEC-DRIFT (first of all a slip in the table).  On the unchanged tree: 9,970 statements, all explained.
+    rejection is SPEC-DRIFT (first of all a slip in the table).  On the unchanged tree: 10,274 statements, all explained.
 
 Not judged / not covered: 80C251 / DS80C390 instructions and modes, the 87C750 restrictions, the 80C504 AJMP anomaly, register
 symbols (AR0.., USING), symbolic SFR names of STDDEF51.INC, forward references (the manual warns that JMP / CALL then need
@@ -53,8 +53,17 @@ Findings on the unchanged tree (known_findings/C14-isa8051.json, proposed_fixes/
                         generic JMP / CALL in the same file use pc + 2 and are right.
   C14-8051-bit-notation `setb 30h.1` -> D2 81 without any message (= P0.1; bytes 30H..3FH are not bit addressable), `setb 81h.1` ->
                         D2 82 with warning 220 only (= bit 80H.2): DecodeBitAdr emits an aliased bit address.
-Mutations of code51.c tried (scratch copies /tmp/g51-m*, each builds and passes ctest 201/201; VERIF_REPO=... ./check C14):
-  see the section "Extension isa8051" of checks/c14.py.
+Mutations of code51.c tried (scratch copies /tmp/g51-m1..3, each builds and passes ctest 201/201; full
+`VERIF_REPO=/tmp/g51-mN VERIF_CACHE_KEEP=30 ./check C14 --tier quick`, every run exit 1):
+  m1 DecodeDJNZ, register form: `AdrLong > 127` -> `> 128`            40 violations: `DJNZ Rn,<pc + 2 + 128>` assembles to D8+n 80
+                                                                     (8 registers x 5 statement addresses; table leaves)
+  m2 DecodeBitAdr (8051 branch): bit number UInt3 -> UInt4           926 violations: `clr 32.8` -> C2 08, `clr 0.9` -> C2 09 ...
+                                                                     (bit numbers 8 9 15 x every byte class x spelling; Isa8051X)
+  m3 DecodeJMP: `Dist <= 127` -> `Dist <= 128`                        7 violations: `jmp <pc + 130>` -> 80 80 where the specification
+                                                                     prescribes AJMP / LJMP (one per statement address; Isa8051X)
+With both proposed fixes applied (scratch copy, ctest 201/201) the phase reports nothing and hits no known finding.
+Cost: quick 63-88 s wall measured at load average 80-150 (26 builders on the machine: the 4 parallel TLC JVMs 34-68 s,
+7-14 s each on the quiet machine; replays 2-10 s each); thorough 383 s (11 TLC runs, ~395,000 statements).
 """
 import os
 import re
